@@ -32,7 +32,8 @@ Record dtables := {
       (* (owner, method, leaf class) -> scalar class of the value ("int", "bigint", "null", "str-astral", ...)
          -> did the method return normally on every sample of that scalar class *)
   t_grammar : list (string * (list string * list (string * list string)));
-      (* input type -> (classes of the root, class -> classes of its children) *)
+      (* input type -> (classes of the root, class -> classes of its children); the pseudo-class "#kinds" lists
+         the scalar classes a leaf of that input type can carry *)
   t_subedit : list string;     (* node classes whose edit prints its sub-edits through the same formatter *)
   t_context : list (string * string)   (* (root formatter, class) printed by print_parent_context in -d *)
 }.
@@ -56,12 +57,14 @@ Record event := {
 
 Inductive outcome :=
   | Completed (status : Z)
-  | Raised (cls : string) (msg : string).
+  | Raised (cls : string) (msg : string) (in_render : bool).
+      (* in_render: the traceback passes through GraphtageFormatter.print (else: loader / diff engine) *)
 
 Record c13_case := {
   c_it : string; c_of : string; c_mode : omode; c_style : ostyle; c_join : bool; c_differ : bool;
   c_roots : list string;               (* classes of the two loaded roots *)
   c_pairs : list (string * string);    (* (class, class of one of its children) over both loaded trees *)
+  c_kinds : list string;               (* scalar classes of the leaves of both loaded trees *)
   c_events : list event;               (* distinct dispatch events, in order of first occurrence *)
   c_out : outcome
 }.
@@ -70,7 +73,7 @@ Record c13_case := {
 Definition holds_C13 (c : c13_case) : bool :=
   match c_out c with
   | Completed s => Z.eqb s 0 || Z.eqb s 1
-  | Raised _ _ => false
+  | Raised _ _ _ => false
   end.
 
 (* ---- strings ---- *)
